@@ -13,13 +13,15 @@
 #define RM (((rep0_pipe *) arg)->aio_recv.a_msg)
 #define ROLDLEN OLD(RM->m_body.ch_len)
 #define BT(c) ((uint8_t *) (c)->btrace)
+/* pipe and socket are allocated by the harness (see spec.h, harness-built state) */
+#define REP_PIPE_PRE (OBJ_OK(arg, struct rep0_pipe) && OBJ_OK(RS, struct rep0_sock) && DISTINCT(arg, RS))
 
 /* ---- receive callback: backtrace walk, then delivery to the first waiting
  * context or holding (C04, C13, C11).  For ALL body bytes, every ttl 1..15. */
 #ifdef RP_RECV_FAILED
 static void rep0_pipe_recv_cb(void *arg)
-__CPROVER_requires(__CPROVER_is_fresh(arg, sizeof(struct rep0_pipe)))
-__CPROVER_requires(__CPROVER_is_fresh(RS, sizeof(struct rep0_sock)) && RR_TTL_OK(RS->ttl.v) && VP_NO_LOCK_HELD)
+__CPROVER_requires(REP_PIPE_PRE)
+__CPROVER_requires(RR_TTL_OK(RS->ttl.v) && VP_NO_LOCK_HELD)
 __CPROVER_requires(RP->aio_recv.a_result != 0)
 /* (list shapes only keep the unreachable rest of the function cheap to encode) */
 __CPROVER_requires(NODE_IDLE(&RP->rnode) && REP_RECVQ_PRE(RS) && REP_RECVPIPES_PRE(RS))
@@ -43,8 +45,8 @@ __CPROVER_ensures(g_pipe_close_calls == OLD(g_pipe_close_calls) + 1 && g_pipe_cl
 #define R_O_DELIVERED (R_SAMECLOSE && R_REARMED && R_FINISHED)
 #define R_HL (OLD(RM)->m_header_len)
 static void rep0_pipe_recv_cb(void *arg)
-__CPROVER_requires(__CPROVER_is_fresh(arg, sizeof(struct rep0_pipe)))
-__CPROVER_requires(__CPROVER_is_fresh(RS, sizeof(struct rep0_sock)) && RR_TTL_OK(RS->ttl.v) && VP_NO_LOCK_HELD)
+__CPROVER_requires(REP_PIPE_PRE)
+__CPROVER_requires(RR_TTL_OK(RS->ttl.v) && VP_NO_LOCK_HELD)
 __CPROVER_requires(RP->aio_recv.a_result == 0 && RR_WIRE_MSG(RM) && CH_GHOST_PRE(&RM->m_body) && RR_BODY_GHOSTS(RM))
 /* the pipe is not yet on the list of pipes holding a request (one receive outstanding per pipe) */
 __CPROVER_requires(NODE_IDLE(&RP->rnode) && RP->id == g_pipe_id)
@@ -144,12 +146,12 @@ __CPROVER_ensures((R_O_DELIVERED && g_k < C1->btrace_len) ==> BT(C1)[g_k] == g_b
  * own context (-DREP_C1M=1) or a separately allocated one (-DREP_C1M=0). */
 #define SOCK ((rep0_sock *) g_sock)
 #define CTX ((rep0_ctx *) arg)
+/* Socket, context, pipes and the lists are allocated and linked by the harness (see spec.h, harness-built
+ * state); the contract states the same facts as plain conditions. */
 #if REP_C1M == 1
-#define REP_CTX_PRE (__CPROVER_is_fresh(g_sock, sizeof(struct rep0_sock)) && PTR_IS(arg, (void *) &SOCK->ctx) && PTR_IS(CTX->sock, SOCK))
-#define IS_MASTER 1
+#define REP_CTX_PRE (OBJ_OK(g_sock, struct rep0_sock) && arg == (void *) &SOCK->ctx && CTX->sock == SOCK)
 #else
-#define REP_CTX_PRE (__CPROVER_is_fresh(g_sock, sizeof(struct rep0_sock)) && __CPROVER_is_fresh(arg, sizeof(struct rep0_ctx)) && PTR_IS(CTX->sock, SOCK))
-#define IS_MASTER 0
+#define REP_CTX_PRE (OBJ_OK(g_sock, struct rep0_sock) && OBJ_OK(arg, struct rep0_ctx) && DISTINCT(arg, g_sock) && CTX->sock == SOCK)
 #endif
 #define SM (aio->a_msg)
 #define SPIPE ((rep0_pipe *) g_rr.idm_val)
@@ -182,11 +184,11 @@ __CPROVER_requires(g_idm_addr == &SOCK->pipes && g_idm_key == (uint64_t) CTX->pi
 #if REP_HAS == 0
 __CPROVER_requires(!g_rr.idm_has)
 #else
-__CPROVER_requires(g_rr.idm_has && __CPROVER_is_fresh(g_rr.idm_val, sizeof(struct rep0_pipe)) &&
+__CPROVER_requires(g_rr.idm_has && OBJ_OK(g_rr.idm_val, struct rep0_pipe) && DISTINCT(g_rr.idm_val, g_sock) && DISTINCT(g_rr.idm_val, arg) && SPIPE->sendq.ll_offset == OFF_SQ &&
 #if REP_SQ == 0
-    LIST_EMPTY_PRE(&SPIPE->sendq, OFF_SQ)
+    LIST_IS_EMPTY(&SPIPE->sendq)
 #else
-    __CPROVER_is_fresh(g_c2, sizeof(struct rep0_ctx)) && LIST_ONE_PRE(&SPIPE->sendq, OFF_SQ, &C2->sqnode)
+    OBJ_OK(g_c2, struct rep0_ctx) && DISTINCT(g_c2, g_sock) && DISTINCT(g_c2, arg) && DISTINCT(g_c2, g_rr.idm_val) && LIST_IS_ONE(&SPIPE->sendq, &C2->sqnode)
 #endif
     )
 #endif
@@ -250,11 +252,14 @@ __CPROVER_ensures((S_WAIT && !g_aio_start_ok) ==> (CTX->saio == NULL && NODE_IDL
 #define RCV_P1M (P1->aio_recv.a_msg)
 #if REP_RP == 0
 #if REP_RQ == 0
-#define RCV_LISTS (CTX->raio == NULL && NODE_IDLE(&CTX->rqnode) && LIST_EMPTY_PRE(&SOCK->recvq, OFF_RQ) && LIST_EMPTY_PRE(&SOCK->recvpipes, OFF_RP))
+#define RCV_OFFS (SOCK->recvq.ll_offset == OFF_RQ && SOCK->recvpipes.ll_offset == OFF_RP)
+#define RCV_LISTS (RCV_OFFS && CTX->raio == NULL && NODE_IDLE(&CTX->rqnode) && LIST_IS_EMPTY(&SOCK->recvq) && LIST_IS_EMPTY(&SOCK->recvpipes))
 #elif REP_RQ == 1
-#define RCV_LISTS (CTX->raio == NULL && NODE_IDLE(&CTX->rqnode) && __CPROVER_is_fresh(g_c2, sizeof(struct rep0_ctx)) && LIST_ONE_PRE(&SOCK->recvq, OFF_RQ, &C2->rqnode) && LIST_EMPTY_PRE(&SOCK->recvpipes, OFF_RP))
+#define RCV_OFFS (SOCK->recvq.ll_offset == OFF_RQ && SOCK->recvpipes.ll_offset == OFF_RP)
+#define RCV_LISTS (RCV_OFFS && CTX->raio == NULL && NODE_IDLE(&CTX->rqnode) && OBJ_OK(g_c2, struct rep0_ctx) && DISTINCT(g_c2, g_sock) && DISTINCT(g_c2, arg) && LIST_IS_ONE(&SOCK->recvq, &C2->rqnode) && LIST_IS_EMPTY(&SOCK->recvpipes))
 #else
-#define RCV_LISTS (__CPROVER_is_fresh(CTX->raio, sizeof(nni_aio)) && LIST_ONE_PRE(&SOCK->recvq, OFF_RQ, &CTX->rqnode) && LIST_EMPTY_PRE(&SOCK->recvpipes, OFF_RP))
+#define RCV_OFFS (SOCK->recvq.ll_offset == OFF_RQ && SOCK->recvpipes.ll_offset == OFF_RP)
+#define RCV_LISTS (RCV_OFFS && __CPROVER_is_fresh(CTX->raio, sizeof(nni_aio)) && LIST_IS_ONE(&SOCK->recvq, &CTX->rqnode) && LIST_IS_EMPTY(&SOCK->recvpipes))
 #endif
 static void rep0_ctx_recv(void *arg, nni_aio *aio)
 __CPROVER_requires(REP_CTX_PRE && VP_NO_LOCK_HELD)
@@ -295,14 +300,14 @@ __CPROVER_ensures(!g_aio_start_ok ==> (CTX->raio == NULL && NODE_IDLE(&CTX->rqno
 ;
 #else /* REP_RP >= 1 */
 #if REP_RP == 1
-#define RCV_PIPES (__CPROVER_is_fresh(g_p1, sizeof(struct rep0_pipe)) && LIST_ONE_PRE(&SOCK->recvpipes, OFF_RP, &P1->rnode))
+#define RCV_PIPES (SOCK->recvpipes.ll_offset == OFF_RP && OBJ_OK(g_p1, struct rep0_pipe) && DISTINCT(g_p1, g_sock) && DISTINCT(g_p1, arg) && LIST_IS_ONE(&SOCK->recvpipes, &P1->rnode))
 #else
-#define RCV_PIPES (__CPROVER_is_fresh(g_p1, sizeof(struct rep0_pipe)) && __CPROVER_is_fresh(g_p2, sizeof(struct rep0_pipe)) && LIST_TWO_PRE(&SOCK->recvpipes, OFF_RP, &P1->rnode, &((rep0_pipe *) g_p2)->rnode))
+#define RCV_PIPES (SOCK->recvpipes.ll_offset == OFF_RP && OBJ_OK(g_p1, struct rep0_pipe) && DISTINCT(g_p1, g_sock) && DISTINCT(g_p1, arg) && OBJ_OK(g_p2, struct rep0_pipe) && DISTINCT(g_p2, g_sock) && DISTINCT(g_p2, arg) && DISTINCT(g_p2, g_p1) && LIST_IS_TWO(&SOCK->recvpipes, &P1->rnode, &((rep0_pipe *) g_p2)->rnode))
 #endif
 static void rep0_ctx_recv(void *arg, nni_aio *aio)
 __CPROVER_requires(REP_CTX_PRE && VP_NO_LOCK_HELD)
 __CPROVER_requires(__CPROVER_is_fresh(aio, sizeof(nni_aio)))
-__CPROVER_requires(CTX->raio == NULL && NODE_IDLE(&CTX->rqnode) && LIST_EMPTY_PRE(&SOCK->recvq, OFF_RQ))
+__CPROVER_requires(CTX->raio == NULL && NODE_IDLE(&CTX->rqnode) && SOCK->recvq.ll_offset == OFF_RQ && LIST_IS_EMPTY(&SOCK->recvq))
 __CPROVER_requires(RCV_PIPES)
 /* the first pipe holds an accepted request: header = backtrace (at most 64 bytes), see rep0_pipe_recv_cb */
 __CPROVER_requires(MSG_PRE(RCV_P1M) && RCV_P1M->m_refcnt.v == 1 && CH_GHOST_PRE(&RCV_P1M->m_body) && HDR_GHOST_PRE(RCV_P1M))
